@@ -5,11 +5,17 @@ From LeaspyGen Require Import GenC03.
 Import ListNotations.
 Local Open Scope R_scope.
 
+(** the generated expression may be written in any algebraically equal way (the exponent is compared by [ring],
+    products / quotients of exponentials are first merged) *)
+Ltac solve_exp :=
+  first [ apply (f_equal exp); ring
+        | rewrite <- ?exp_plus, <- ?exp_Ropp; apply (f_equal exp); ring ].
+
 Lemma tie_alpha_pop pa na pr nr t : gen_alpha_pop pa na pr nr t = alpha pa na pr nr t.
-Proof. unfold gen_alpha_pop, alpha, Dval. f_equal. ring. Qed.
+Proof. unfold gen_alpha_pop, alpha, Dval. solve_exp. Qed.
 
 Lemma tie_alpha_ind pa na pr nr t : gen_alpha_ind pa na pr nr t = alpha pa na pr nr t.
-Proof. unfold gen_alpha_ind, alpha, Dval. f_equal. ring. Qed.
+Proof. unfold gen_alpha_ind, alpha, Dval. solve_exp. Qed.
 
 Lemma tie_accept_pop u a : gen_accept_pop u a <-> u < a.
 Proof. unfold gen_accept_pop. split; intros H; lra. Qed.
